@@ -264,6 +264,8 @@ class FunctionNormalizer:
         for _ in range(6):
             self.changed = False
             self._count(fn)
+            self.alias_attributes(fn)
+            self._count(fn)
             doc, body = _docstring_split(fn.body)
             body = self.block(body, fall="return", fn=fn)
             fn.body = doc + (body or [ast.Pass()])
@@ -284,6 +286,139 @@ class FunctionNormalizer:
             elif isinstance(n, (ast.Global, ast.Nonlocal)):
                 for x in n.names:
                     self.n_stores[x] += 5
+
+    # ---- N11: a local alias of an attribute chain (`t = self.x`) is replaced by the chain where nothing can have rebound it
+    def alias_attributes(self, fn) -> None:
+        for owner, field in _blocks(fn):
+            body = getattr(owner, field)
+            i = 0
+            while i < len(body):
+                st = body[i]
+                t = _simple_target(st)
+                if t and self._alias_ok(t, st, body[i + 1:], fn):
+                    for rest in body[i + 1:]:
+                        for use in _loads(rest, t):
+                            _ReplaceNode(use, _loc_all(copy.deepcopy(st.value), use)).visit(rest)
+                    del body[i]
+                    if not body:
+                        body.append(_loc(ast.Pass(), st))
+                    self._mark()
+                    continue
+                i += 1
+
+    def _alias_ok(self, t: str, st: ast.stmt, rest: List[ast.stmt], fn) -> bool:
+        v = st.value
+        chain = v
+        while isinstance(chain, ast.Attribute):
+            chain = chain.value
+        if not (isinstance(v, ast.Attribute) and isinstance(chain, ast.Name)) or chain.id == t:
+            return False
+        root = chain.id
+        if self._is_param(fn, t) or self.n_stores[t] != 1 or self.n_loads[t] < 2 or self.n_stores[root] > 1:
+            return False
+        if sum(len(_loads(r, t)) for r in rest) != self.n_loads[t]:
+            return False
+        text = norm(v)
+        prefixes = set()
+        c = v
+        while isinstance(c, (ast.Attribute, ast.Name)):
+            prefixes.add(norm(c))
+            if isinstance(c, ast.Name):
+                break
+            c = c.value
+
+        def kills(node) -> bool:
+            """Can evaluating ``node`` rebind the chain?  A store to a prefix of it, or a call that is handed the root object."""
+            parents = {}
+            for n in ast.walk(node):
+                for ch in ast.iter_child_nodes(n):
+                    parents[id(ch)] = n
+            for n in ast.walk(node):
+                if isinstance(n, (ast.Name, ast.Attribute)) and isinstance(getattr(n, "ctx", None), (ast.Store, ast.Del)) and norm(n) in prefixes:
+                    return True
+                if isinstance(n, ast.Name) and n.id == root and isinstance(n.ctx, ast.Load):
+                    # the largest attribute chain this mention is the root of
+                    top = n
+                    while isinstance(parents.get(id(top)), ast.Attribute) and parents[id(top)].value is top:
+                        top = parents[id(top)]
+                    tt = norm(top)
+                    if tt == text or tt.startswith(text + "."):
+                        continue  # the aliased object itself
+                    # is the mention inside a call (receiver or argument)?
+                    q = top
+                    while id(q) in parents:
+                        q = parents[id(q)]
+                        if isinstance(q, (ast.Call, ast.Await, ast.Yield, ast.YieldFrom)):
+                            return True
+                        if isinstance(q, ast.stmt):
+                            break
+            return False
+
+        def deferred(node, use) -> bool:
+            path = _path_to(node, use) or []
+            for parent, child in zip(path, path[1:]):
+                if isinstance(parent, (ast.Lambda, ast.FunctionDef, ast.AsyncFunctionDef, ast.ClassDef)):
+                    return True
+                if isinstance(parent, ast.GeneratorExp) and not (parent.generators and _contains(parent.generators[0].iter, use)):
+                    return True
+            return False
+
+        ok = [True]
+
+        def expr(node, live) -> bool:
+            uses = _loads(node, t)
+            k = kills(node)
+            if uses and (not live or k or any(deferred(node, u) for u in uses)):
+                ok[0] = False
+            return live and not k
+
+        def walk(stmts, live) -> bool:
+            for s in stmts:
+                if not ok[0]:
+                    return False
+                if isinstance(s, ast.If):
+                    live = expr(s.test, live)
+                    a = walk(s.body, live)
+                    b = walk(s.orelse, live)
+                    live = a and b
+                elif isinstance(s, (ast.For, ast.AsyncFor, ast.While)):
+                    inner = live and not kills(s)
+                    hdr = s.iter if not isinstance(s, ast.While) else s.test
+                    expr(hdr, inner)
+                    if not isinstance(s, ast.While) and _loads(s.target, t):
+                        ok[0] = False
+                    walk(s.body, inner)
+                    walk(s.orelse, inner)
+                    live = inner
+                elif isinstance(s, (ast.With, ast.AsyncWith)):
+                    for it in s.items:
+                        live = expr(it, live)
+                    live = walk(s.body, live)
+                elif isinstance(s, ast.Try) or s.__class__.__name__ == "TryStar":
+                    inner = live and not kills(s)
+                    walk(s.body, inner)
+                    for h in s.handlers:
+                        if h.type is not None:
+                            expr(h.type, inner)
+                        walk(h.body, inner)
+                    walk(s.orelse, inner)
+                    walk(s.finalbody, inner)
+                    live = inner
+                elif isinstance(s, (ast.FunctionDef, ast.AsyncFunctionDef, ast.ClassDef)):
+                    if _loads(s, t):
+                        ok[0] = False
+                elif isinstance(s, (ast.Assign, ast.AnnAssign, ast.AugAssign)) and s.value is not None:
+                    tg = s.targets if isinstance(s, ast.Assign) else [s.target]
+                    if any(_loads(x, t) for x in tg) and kills(s):
+                        ok[0] = False
+                    value_live = expr(s.value, live)
+                    live = value_live and not any(kills(x) for x in tg)
+                else:
+                    live = expr(s, live)
+            return live
+
+        walk(rest, True)
+        return ok[0]
 
     # ---- a block
     def block(self, body: List[ast.stmt], fall: Optional[str], fn: ast.AST) -> List[ast.stmt]:
@@ -322,6 +457,18 @@ class FunctionNormalizer:
     def ann_assign(self, body):
         out = []
         for st in body:
+            if isinstance(st, ast.Assign) and len(st.targets) == 1 and isinstance(st.targets[0], (ast.Tuple, ast.List)) \
+                    and isinstance(st.value, (ast.Tuple, ast.List)) and len(st.value.elts) == len(st.targets[0].elts) \
+                    and all(isinstance(x, ast.Name) for x in st.targets[0].elts) and not any(isinstance(x, ast.Starred) for x in st.value.elts) \
+                    and len({x.id for x in st.targets[0].elts}) == len(st.targets[0].elts):
+                names = [x.id for x in st.targets[0].elts]
+                # `a, b = X, Y` is `a = X; b = Y` when no right-hand side reads a name the statement binds
+                if not any(isinstance(n, ast.Name) and n.id in names for v in st.value.elts for n in ast.walk(v)) and \
+                        not any(isinstance(n, (ast.Lambda, ast.NamedExpr)) for v in st.value.elts for n in ast.walk(v)):
+                    for tg, v in zip(st.targets[0].elts, st.value.elts):
+                        out.append(_loc(ast.Assign(targets=[tg], value=v), st))
+                    self._mark()
+                    continue
             if isinstance(st, ast.AnnAssign) and st.value is not None and isinstance(st.target, (ast.Name, ast.Attribute, ast.Subscript)):
                 out.append(_loc(ast.Assign(targets=[st.target], value=st.value), st))
                 self._mark()
@@ -843,9 +990,22 @@ class _Consumers(ast.NodeTransformer):
             return self.visit_BoolOp(_loc(ast.BoolOp(op=ast.Or(), values=[n.orelse, n.body]), n))   # b if not a else a
         return n
 
+    def visit_Subscript(self, n):
+        self.generic_visit(n)
+        # re.Match: m.span()[0] is m.start(), m.span()[1] is m.end()
+        v = n.value
+        if isinstance(n.ctx, ast.Load) and isinstance(v, ast.Call) and isinstance(v.func, ast.Attribute) and v.func.attr == "span" and not v.args and not v.keywords \
+                and isinstance(n.slice, ast.Constant) and n.slice.value in (0, 1) and not isinstance(n.slice.value, bool):
+            return _loc(ast.Call(func=_loc(ast.Attribute(value=v.func.value, attr="start" if n.slice.value == 0 else "end", ctx=ast.Load()), n), args=[], keywords=[]), n)
+        return n
+
     def visit_Call(self, n):
         self.generic_visit(n)
         name = n.func.id if isinstance(n.func, ast.Name) else (n.func.attr if isinstance(n.func, ast.Attribute) else None)
+        if name == "dict" and isinstance(n.func, ast.Name) and len(n.args) == 1 and not n.keywords and isinstance(n.args[0], (ast.GeneratorExp, ast.ListComp)) \
+                and isinstance(n.args[0].elt, ast.Tuple) and len(n.args[0].elt.elts) == 2 and not any(isinstance(x, ast.Starred) for x in n.args[0].elt.elts):
+            a = n.args[0]
+            return _loc(ast.DictComp(key=a.elt.elts[0], value=a.elt.elts[1], generators=a.generators), n)   # dict((k, v) for …) is {k: v for …}
         if norm(n.func) in ("cast", "typing.cast") and len(n.args) == 2 and not n.keywords:
             return n.args[1]  # typing.cast is the identity at run time
         fs = _format_to_fstring(n)
@@ -893,12 +1053,14 @@ class Normalizer:
                 continue
             fi = fis[0]
             fn = fi.node
-            if not name.startswith("_") or (name.startswith("__") and name.endswith("__")):
+            if name.startswith("__") and name.endswith("__"):
                 continue
-            if name in self.known:
+            if name in self.known or isinstance(fn, ast.AsyncFunctionDef):
                 continue
-            if fi.parent is not None or isinstance(fn, ast.AsyncFunctionDef):
+            if fi.parent is None and not name.startswith("_"):
                 continue
+            if fi.parent is not None and not self._closure_free(fi):
+                continue  # a nested function is a candidate when it captures nothing from the functions around it
             decos = [norm(d) for d in fn.decorator_list]
             if any(d not in ("staticmethod", "classmethod") for d in decos):
                 continue
@@ -920,8 +1082,36 @@ class Normalizer:
     def _mangled(fi, name):
         return name
 
+    @staticmethod
+    def _closure_free(fi) -> bool:
+        """No name read in the nested function is bound by an enclosing function (parameters and locals of the whole chain)."""
+        fn = fi.node
+        own = {x.arg for x in ast.walk(fn.args) if isinstance(x, ast.arg)}
+        own |= {n.id for n in ast.walk(fn) if isinstance(n, ast.Name) and isinstance(n.ctx, (ast.Store, ast.Del))}
+        free = {n.id for n in ast.walk(fn) if isinstance(n, ast.Name) and isinstance(n.ctx, ast.Load)} - own
+        p = fi.parent
+        while p is not None:
+            pn = p.node
+            if isinstance(pn, ast.Lambda):
+                return False
+            outer = {x.arg for x in ast.walk(pn.args) if isinstance(x, ast.arg)}
+            for n in ast.walk(pn):
+                if n is fn:
+                    continue
+                if isinstance(n, ast.Name) and isinstance(n.ctx, (ast.Store, ast.Del)):
+                    outer.add(n.id)
+                elif isinstance(n, (ast.FunctionDef, ast.AsyncFunctionDef, ast.ClassDef)):
+                    outer.add(n.name)
+                elif isinstance(n, (ast.Import, ast.ImportFrom)):
+                    outer |= {(a.asname or a.name).split(".")[0] for a in n.names}
+            if free & (outer - {fn.name}):
+                return False
+            p = p.parent
+        return True
+
     def _find_signatures(self) -> Dict[str, List[str]]:
         sig = {}
+        self.defaults: Dict[str, Dict[str, ast.Constant]] = {}
         for name, fis in self.by_name.items():
             if name in ARG_STOP or (name.startswith("__") and name.endswith("__")):
                 continue
@@ -938,6 +1128,21 @@ class Normalizer:
                 lists.add(tuple(ps))
             if ok and len(lists) == 1:
                 sig[name] = list(lists.pop())
+                # constant defaults every definition of the name agrees on
+                per = []
+                for fi in fis:
+                    a = fi.node.args
+                    d = {}
+                    for x, dv in zip(a.args[len(a.args) - len(a.defaults):], a.defaults):
+                        if isinstance(dv, ast.Constant):
+                            d[x.arg] = dv
+                    for x, dv in zip(a.kwonlyargs, a.kw_defaults):
+                        if isinstance(dv, ast.Constant):
+                            d[x.arg] = dv
+                    per.append(d)
+                common = {k: v for k, v in per[0].items() if all(k in d and norm(d[k]) == norm(v) for d in per)}
+                if common:
+                    self.defaults[name] = common
         return sig
 
     # ---- entry
@@ -971,8 +1176,9 @@ class Normalizer:
     def _module(self, tree: ast.Module) -> ast.Module:
         tree = copy.deepcopy(tree)
         # per-function normalisation of helper bodies happens as part of the general pass; inline first on a normalised copy
+        self._inline_helpers(tree)      # helper calls standing as statements of their own, before temporaries are folded into expressions
         self._normalize_functions(tree)
-        self._inline_helpers(tree)
+        self._inline_helpers(tree)      # … and those that normalisation has brought into statement position
         self._normalize_functions(tree)
         tree = _Consumers().visit(tree)
         self._keyword_args(tree)
@@ -1060,6 +1266,10 @@ class Normalizer:
         if fi is None:
             # name-mangled private methods: self.__x is stored as __x in the class body
             return None
+        if fi.parent is not None:
+            cur = getattr(self, "_cur_fn", None)
+            if recv is not None or cur is None or name not in getattr(self, "_visible", {}).get(id(cur), ()):
+                return None
         if any(isinstance(a, ast.Starred) for a in call.args) or any(k.arg is None for k in call.keywords):
             return None
         return fi, recv
@@ -1107,12 +1317,45 @@ class Normalizer:
     def _inline_helpers(self, tree):
         if not self.helpers:
             return
+        # a nested helper can be called only from the function that defines it and the functions nested in that one
+        self._visible: Dict[int, Set[str]] = {}
+
+        def scope(fn_, inherited):
+            mine = set(inherited)
+            for st in ast.walk(fn_):
+                if isinstance(st, (ast.FunctionDef, ast.AsyncFunctionDef)) and st is not fn_ and st.name in self.helpers and self.helpers[st.name].parent is not None:
+                    mine.add(st.name)
+            self._visible[id(fn_)] = mine
+            stack = list(ast.iter_child_nodes(fn_))
+            while stack:
+                c = stack.pop()
+                if isinstance(c, (ast.FunctionDef, ast.AsyncFunctionDef)):
+                    scope(c, mine)
+                else:
+                    stack.extend(ast.iter_child_nodes(c))
+
+        for top in tree.body:
+            if isinstance(top, (ast.FunctionDef, ast.AsyncFunctionDef)):
+                scope(top, set())
+            elif isinstance(top, ast.ClassDef):
+                for m in ast.walk(top):
+                    if isinstance(m, (ast.FunctionDef, ast.AsyncFunctionDef)) and id(m) not in self._visible:
+                        scope(m, set())
         for fn in [n for n in ast.walk(tree) if isinstance(n, (ast.FunctionDef, ast.AsyncFunctionDef))]:
             if fn.name in self.helpers:
                 continue
+            self._cur_fn = fn
             for _ in range(4):
                 if not self._inline_in_function(fn):
                     break
+            # a nested helper whose every call was inlined is no longer referenced: its definition goes
+            for owner, field in _blocks(fn):
+                blk = getattr(owner, field)
+                keep = [st for st in blk if not (isinstance(st, ast.FunctionDef) and st.name in self.helpers and self.helpers[st.name].parent is not None
+                                                 and not any(isinstance(x, ast.Name) and x.id == st.name for x in ast.walk(fn)))]
+                if len(keep) != len(blk):
+                    setattr(owner, field, keep or [_loc(ast.Pass(), blk[0])])
+        self._cur_fn = None
         # module-level tables that mention a single-expression private helper by name hold, in effect, that lambda
         inl = _ExprInliner(self)
 
@@ -1172,6 +1415,46 @@ class Normalizer:
             self.stats["helper_sites_inlined"] += tr.count
         return changed
 
+    def _inline_multi_return(self, st, fn, fi, recv, call, mode, hb) -> Optional[List[ast.stmt]]:
+        """A helper with several returns: as the whole value of a `return` its body stands in place of the statement; as the
+        value of `T = helper(…)` its returns become assignments to T (single-exit form)."""
+        if mode == "expr" or not _terminates(hb):
+            return None
+        binding = self._bind(fi, recv, call)
+        if binding is None:
+            return None
+        helper_locals = {n.id for s in hb for n in ast.walk(s) if isinstance(n, ast.Name) and isinstance(n.ctx, ast.Store)}
+        caller_names = {n.id for n in ast.walk(fn) if isinstance(n, ast.Name)} | {x.arg for x in ast.walk(fn) if isinstance(x, ast.arg)}
+        pre: List[ast.stmt] = []
+        mapping: Dict[str, ast.expr] = {}
+        tag = fi.node.name.strip("_")
+        for p, v in binding.items():
+            uses = sum(len(_loads(s, p)) for s in hb)
+            if self._trivial(v) and p not in helper_locals:
+                mapping[p] = v
+            elif uses <= 1 and p not in helper_locals and not any(isinstance(n, ast.Call) for n in ast.walk(v)):
+                mapping[p] = v
+            else:
+                tmp = f"{p}__{tag}"
+                pre.append(_loc(ast.Assign(targets=[ast.Name(id=tmp, ctx=ast.Store())], value=v), st))
+                mapping[p] = ast.Name(id=tmp, ctx=ast.Load())
+        for l in helper_locals:
+            if l not in binding and l in caller_names:
+                mapping[l] = ast.Name(id=f"{l}__{tag}", ctx=ast.Load())
+        body = [_Rename(mapping).visit(s) for s in hb]
+        if mode == "return":
+            out = body
+        else:
+            if not (isinstance(st, ast.Assign) and len(st.targets) == 1 and isinstance(st.targets[0], ast.Name)):
+                return None
+            T = st.targets[0].id
+            if any(isinstance(n, ast.Name) and n.id == T for s in body for n in ast.walk(s)):
+                return None
+            out = _eliminate_returns(body, lambda v, ref: _loc(ast.Assign(targets=[ast.Name(id=T, ctx=ast.Store())], value=v), ref))
+            if out is None:
+                return None
+        return [ast.fix_missing_locations(_loc_all(s, st)) for s in pre + out]
+
     def _inline_statement(self, st: ast.stmt, fn) -> Optional[List[ast.stmt]]:
         call = None
         if isinstance(st, ast.Expr) and isinstance(st.value, ast.Call):
@@ -1192,7 +1475,7 @@ class Normalizer:
         final = hb[-1] if isinstance(hb[-1], ast.Return) else None
         stmts = hb[:-1] if final is not None else hb
         if any(isinstance(n, ast.Return) for s in stmts for n in ast.walk(s)):
-            return None
+            return self._inline_multi_return(st, fn, fi, recv, call, mode, hb)
         if not stmts and final is not None:
             return None  # expression-bodied: handled by _ExprInliner
         if mode != "expr" and (final is None or final.value is None):
@@ -1252,6 +1535,41 @@ class Normalizer:
             else:
                 pass
         return [ast.fix_missing_locations(s) for s in out] or [_loc(ast.Pass(), st)]
+
+
+def _eliminate_returns(block: List[ast.stmt], assign) -> Optional[List[ast.stmt]]:
+    """``block`` with every `return v` turned into ``assign(v)`` and the code after a returning `if` moved into the other
+    arm (single exit); None when a return sits inside a loop / try / with, or an `if` returns on only some of its paths
+    while the other arm falls through."""
+    out: List[ast.stmt] = []
+    for i, s in enumerate(block):
+        rest = block[i + 1:]
+        if isinstance(s, ast.Return):
+            if s.value is None:
+                return None
+            out.append(assign(s.value, s))
+            return out
+        has_ret = any(isinstance(n, ast.Return) for n in ast.walk(s))
+        if not has_ret:
+            out.append(s)
+            continue
+        if not isinstance(s, ast.If):
+            return None
+        bt = _terminates(s.body)
+        ot = _terminates(s.orelse) if s.orelse else False
+        if bt:
+            b2 = _eliminate_returns(list(s.body), assign)
+            o2 = _eliminate_returns(list(s.orelse) + rest, assign)
+        elif ot:
+            b2 = _eliminate_returns(list(s.body) + rest, assign)
+            o2 = _eliminate_returns(list(s.orelse), assign)
+        else:
+            return None
+        if b2 is None or o2 is None:
+            return None
+        out.append(_loc(ast.If(test=s.test, body=b2 or [_loc(ast.Pass(), s)], orelse=o2), s))
+        return out
+    return out
 
 
 def _loc_all(node, ref):
